@@ -248,6 +248,12 @@ def check_property(prop, tier, seed, keep=False, canary=True):
                 violations.append((jr, None, None, None))
         trusted += jr.get('trusted', [])
     wall = time.time() - t0
+    # failing inputs found by paired native refuters, keyed by the Verus obligation they exercise
+    paired_inputs = {}
+    for jr in jres:
+        if jr['status'] == 'failed' and jr.get('input'):
+            for ob_id in jr.get('pairs', []):
+                paired_inputs[ob_id] = (jr['id'], jr['input'])
     # ---- report
     rc = 0
     printed = set()
@@ -259,6 +265,8 @@ def check_property(prop, tier, seed, keep=False, canary=True):
         print('KNOWN-FINDING: property=%s %s [%s at `%s`] %s' % (prop, k['obligation'], k['kind'], k['site'], k['what']))
     replay_paths = []
     for v in violations:
+        if not isinstance(v[0], dict) and v[0].id in paired_inputs:
+            v[0].failing_input = paired_inputs[v[0].id]
         rp = write_replay(prop, v, tier)
         replay_paths.append(rp)
         suffix = '' if _has_input(v) else ' no-failing-input-found'
@@ -280,7 +288,7 @@ def _has_input(v):
     ob = v[0]
     if isinstance(ob, dict):
         return bool(ob.get('input'))
-    return False
+    return bool(getattr(ob, 'failing_input', None))
 
 
 def _explain(v):
@@ -291,6 +299,8 @@ def _explain(v):
     for e in errs:
         o = e['origin']
         print('  obligation %s: %s at %s `%s`' % (ob.id, e['kind'], ('%s:%d' % o) if o else 'contract', e['site_text'][:120]))
+    if getattr(ob, 'failing_input', None):
+        print('  failing input (native refuter %s, replayed on the real code): %s' % (ob.failing_input[0], ob.failing_input[1][:300]))
 
 
 def write_replay(prop, v, tier):
@@ -307,8 +317,9 @@ def write_replay(prop, v, tier):
                     target='%s :: %s' % (ob.lift.file, ob.lift.path) if ob.lift else None,
                     failed=[dict(kind=e['kind'], site=e['site_text'], origin=e['origin'], detail=e['detail']) for e in errs],
                     verifier_output='\n'.join(e['rendered'] for e in errs),
-                    failing_input=None,
-                    note='Verus gives no counterexample; no failing input was found by the paired engines',
+                    failing_input=(dict(found_by=ob.failing_input[0], input=ob.failing_input[1]) if getattr(ob, 'failing_input', None) else None),
+                    note=('Verus gives no counterexample; the paired native refuter found a concrete failing input on the real code'
+                          if getattr(ob, 'failing_input', None) else 'Verus gives no counterexample; no failing input was found by the paired engines'),
                     contract=ob.lift.spec if ob.lift else None,
                     checker_cmd=r['cmd'], rerun='./check %s --replay <this file>' % prop)
         key = ob.id + ''.join(e['kind'] + e['site_text'] for e in errs)
